@@ -329,7 +329,6 @@ MANIFEST = {
     "category": "other",
     "text": "The repo-side mechanisms of the serialiser clause are proved (no null-valued keys from _remove_none_values; in-progress set restored on every "
             "exit of the mutually recursive serialiser functions). The round-trip laws are cattrs' (assumed) and only exercised in bounded form.",
-    "note": "cattrs not under contract; termination follows from the proved discipline only for list/dataclass nodes (a self-containing dict reaches "
-            "unstructure_to_dict unguarded: known finding).",
+    "note": "cattrs not under contract; termination follows from the proved in-progress discipline (lists, dicts and dataclasses are tracked). Bounded: grid leaf type x container position x value.",
     "technique": "contract-based deductive verification (modular recursion, set-valued frame, z3) + bounded round trips on real cattrs",
 }
